@@ -301,9 +301,9 @@ func (g *vbGen) toml() string {
 		kv("unicast_only", verifh.B(r.Bool()))
 	}
 	if r.Chance(50) {
-		m := verifh.Pick(r, []int{0, 1, 1280, 1500, 9000, 65535, 65536, 1 + r.Intn(65536), 1 + r.Intn(65536), 1 + r.Intn(65536)})
+		m := verifh.Pick(r, []int64{0, 1, 1280, 1500, 9000, 65535, 65536, int64(1 + r.Intn(65536)), int64(1 + r.Intn(65536)), int64(1 + r.Intn(65536))})
 		if r.Chance(4) {
-			m = verifh.Pick(r, []int{65537, 4294968796, -1}) // over the documented limit / wraps in 32 bits
+			m = verifh.Pick(r, []int64{65537, 4294968796, -1}) // over the documented limit / wraps in 32 bits
 			g.tag("mtu:out-of-range")
 		}
 		kv("mtu", fmt.Sprint(m))
